@@ -99,10 +99,10 @@ Definition model_ok (c : acase) (P : project) (r0 r : arun) : bool :=
   is_permb (run_pi r) (length (p_files P))
   (* the files are parsed in the model's order *)
   && list_eqb (list_eqb str_eqb) (map f_path enum) (map f_path (enumerate (p_files P) (run_obs r)))
-  (* fixed phases: the same sequence in every run of the real code; the same entities otherwise *)
-  && forallb (fun k => if run_sorted r
-                       then list_eqb Nat.eqb (sparse_get k (run_fixed r0)) (sparse_get k (run_fixed r))
-                       else same_ids (sparse_get k (run_fixed r0)) (sparse_get k (run_fixed r)))
+  (* fixed phases: the same sequence in every run of the real code (under another enumeration they are
+     whatever that run computed: e.g. which of several equally named procedures makes it to the front page) *)
+  && forallb (fun k => negb (run_sorted r)
+                       || list_eqb Nat.eqb (sparse_get k (run_fixed r0)) (sparse_get k (run_fixed r)))
              (seq 0 n_sets)
   (* id-set phases: the same entities in every run, all of them requested by an earlier phase *)
   && forallb (fun k => same_ids (sparse_get k (run_idsets r0)) (sparse_get k (run_idsets r))
